@@ -19,6 +19,8 @@
 package racesample
 
 import (
+	clocktesting "k8s.io/utils/clock/testing"
+
 	"encoding/json"
 	"flag"
 	"fmt"
@@ -173,6 +175,52 @@ func returns(fn func()) (ok bool, panicked any) {
 
 // eventually polls cond (yielding in between) until it holds or hangTimeout
 // passes. step, when non-nil, is called between polls (e.g. to step a clock).
+// nudge makes the k8s fake clock deliver what the real runtime delivers at
+// once: a fake timer created with a non-positive duration only fires at the
+// next Step, whereas a real one fires immediately. A background Step(0) every
+// 200 us closes that gap, so that code which (legitimately) arms an already-due
+// timer is not reported as hanging. The returned function stops the nudger.
+func nudge(clk *clocktesting.FakeClock) (stop func()) {
+	done := make(chan struct{})
+	fin := make(chan struct{})
+	go func() {
+		defer close(fin)
+		for {
+			select {
+			case <-done:
+				return
+			default:
+			}
+			clk.Step(0)
+			time.Sleep(200 * time.Microsecond)
+		}
+	}()
+	return func() { close(done); <-fin }
+}
+
+// nudger is nudge for workloads that make a fresh clock per round: watch(clk)
+// switches the background Step(0) to the round's clock.
+func nudger() (watch func(*clocktesting.FakeClock), stop func()) {
+	var cur atomic.Pointer[clocktesting.FakeClock]
+	done := make(chan struct{})
+	fin := make(chan struct{})
+	go func() {
+		defer close(fin)
+		for {
+			select {
+			case <-done:
+				return
+			default:
+			}
+			if c := cur.Load(); c != nil {
+				c.Step(0)
+			}
+			time.Sleep(200 * time.Microsecond)
+		}
+	}()
+	return func(c *clocktesting.FakeClock) { cur.Store(c) }, func() { close(done); <-fin }
+}
+
 func eventually(cond func() bool, step func()) bool {
 	deadline := time.Now().Add(hangTimeout)
 	for i := 0; ; i++ {
